@@ -550,3 +550,21 @@ def _(M, a, c):
     neg = M.binop('Lt', Int(64, True, v.v), Int(64, True, 0)) if True else False
     if M.branch(neg): return err(Native('TryFromIntError'))
     return ok(Int(w, s, v.v))
+
+# demonic iteration order for hash containers: fork over permutations (hash seed = symbolic input)
+import itertools
+FORK_CHOICE = {'n': 0}
+def demonic_perm(M, items):
+    items = list(items); out = []
+    while len(items) > 1:
+        # choose which element comes next: a fresh symbolic selector per choice point
+        FORK_CHOICE['n'] += 1
+        sel = z3.BitVec('hashorder%d' % FORK_CHOICE['n'], 8)
+        M.assume(z3.ULT(sel, len(items)))
+        k = None
+        for j in range(len(items)):
+            if M.branch(sel == j): k = j; break
+        out.append(items.pop(k))
+    return out + items
+@model_re(r'^HashSet::iter$')
+def _(M, a, c): return Native('HashIter', items=demonic_perm(M, [Ref(e, 0) for e in sorted_items(V(a[0]).d['m'])]))
